@@ -133,6 +133,15 @@ class GenSource(object):
         self.queues = {}
         self.want_name = None
         self.last_mutated = None
+        # hammer runs (1 run in 16): one cheap callable asked a few hundred times, alternately with exactly the
+        # same arguments and with fresh ones - counters, budgets, cache-size thresholds and evictions only show then
+        self.hammer = None
+        self.hammer_spec = None
+        if self.rng.random() < 1.0 / 16:
+            cheap = [n for n in NAMES if self.est(n) < 600 and ENTRIES[n].effect == 'pure']
+            self.hammer = self.rng.choice(cheap)
+            self.cfg['nops'] = self.rng.randint(150, 400)
+            self.cfg['hammer'] = self.hammer
         # affinity: which catalogue entries enter which pymeeus functions (measured by ./check calibrate);
         # used to make overlapping calls share code, which is where per-function scratch state would bite
         self.funcs = funcs or {}
@@ -430,6 +439,17 @@ class GenSource(object):
                 if op is not None:
                     sim.count('probe.same_callable_again_with_other_arguments')
                     return op
+        if self.hammer is not None and depth == 0 and rng.random() < 0.75:
+            if self.hammer_spec is not None and rng.random() < 0.6 and self._args_unchanged(sim, self.hammer_spec):
+                sim.count('probe.hammer_same_arguments')
+                return self._finish(self._core(self.hammer_spec), task, depth)
+            op = self._make_named(sim, task, depth, self.hammer)
+            if op is not None:
+                sim.count('probe.hammer_fresh_arguments')
+                if self.hammer_spec is None or rng.random() < 0.1:
+                    self.hammer_spec = dict((k, copy.deepcopy(op[k])) for k in ('name', 'recv', 'args', 'kwargs'))
+                    self._snaps(sim, self.hammer_spec)
+                return op
         if self.want_name is not None:
             name, self.want_name = self.want_name, None
             op = self._make_named(sim, task, depth, name)
